@@ -302,9 +302,9 @@ class VariableElimination(Inference):
 
         # Step 2: If virtual_evidence is provided, modify the network.
         if isinstance(self.model, BayesianNetwork) and (virtual_evidence is not None):
-            self._virtual_evidence(virtual_evidence)
+            bn = self._virtual_evidence(virtual_evidence)
             virt_evidence = {"__" + cpd.variables[0]: 0 for cpd in virtual_evidence}
-            return self.query(
+            return type(self)(bn).query(
                 variables=variables,
                 evidence={**evidence, **virt_evidence},
                 virtual_evidence=None,
@@ -552,9 +552,9 @@ class VariableElimination(Inference):
             )
 
         if isinstance(self.model, BayesianNetwork) and (virtual_evidence is not None):
-            self._virtual_evidence(virtual_evidence)
+            bn = self._virtual_evidence(virtual_evidence)
             virt_evidence = {"__" + cpd.variables[0]: 0 for cpd in virtual_evidence}
-            return self.map_query(
+            return type(self)(bn).map_query(
                 variables=variables,
                 evidence={**evidence, **virt_evidence},
                 virtual_evidence=None,
@@ -1105,9 +1105,9 @@ class BeliefPropagation(Inference):
 
         # Step 2: If virtual_evidence is provided, modify model and evidence.
         if isinstance(self.model, BayesianNetwork) and (virtual_evidence is not None):
-            self._virtual_evidence(virtual_evidence)
+            bn = self._virtual_evidence(virtual_evidence)
             virt_evidence = {"__" + cpd.variables[0]: 0 for cpd in virtual_evidence}
-            return self.query(
+            return type(self)(bn).query(
                 variables=variables,
                 evidence={**evidence, **virt_evidence},
                 virtual_evidence=None,
@@ -1204,9 +1204,9 @@ class BeliefPropagation(Inference):
         orig_model = self.model.copy()
 
         if isinstance(self.model, BayesianNetwork) and (virtual_evidence is not None):
-            self._virtual_evidence(virtual_evidence)
+            bn = self._virtual_evidence(virtual_evidence)
             virt_evidence = {"__" + cpd.variables[0]: 0 for cpd in virtual_evidence}
-            return self.map_query(
+            return type(self)(bn).map_query(
                 variables=variables,
                 evidence={**evidence, **virt_evidence},
                 virtual_evidence=None,
